@@ -78,6 +78,70 @@ pub struct Corpus {
     pub from_tests_dir: usize,
     pub from_unit_tests: usize,
     pub from_docs: usize,
+    /// names found in string literals of the expander's own sources that look like
+    /// environment variables (as written, and combined with prefix-like literals such as "O2O_")
+    pub dict_env: Vec<String>,
+    /// string literals that look like command-line flags
+    pub dict_argv: Vec<String>,
+}
+
+/// A dictionary in the fuzzing sense, taken from the working tree under test: whatever the
+/// expander compares its surroundings against is written somewhere in its sources.
+fn source_dictionary(repo: &Path) -> (Vec<String>, Vec<String>) {
+    let mut lits: Vec<String> = Vec::new();
+    fn walk(ts: TokenStream, out: &mut Vec<String>) {
+        for t in ts {
+            match t {
+                TokenTree::Literal(l) => {
+                    let r = l.to_string();
+                    if r.len() >= 3 && r.starts_with('"') && r.ends_with('"') {
+                        out.push(r[1..r.len() - 1].to_string());
+                    }
+                },
+                TokenTree::Group(g) => walk(g.stream(), out),
+                _ => {},
+            }
+        }
+    }
+    let mut files: Vec<std::path::PathBuf> = Vec::new();
+    for d in ["o2o-impl/src", "o2o-macros/src", "src"] {
+        if let Ok(rd) = std::fs::read_dir(repo.join(d)) {
+            files.extend(rd.filter_map(|e| e.ok()).map(|e| e.path()).filter(|p| p.extension().map(|x| x == "rs").unwrap_or(false)));
+        }
+    }
+    files.sort();
+    for f in files {
+        // the unit tests and the verification seam are not the expander
+        let name = f.file_name().unwrap().to_string_lossy().to_string();
+        if name == "tests.rs" || name == "verif_seam.rs" {
+            continue;
+        }
+        if let Ok(src) = std::fs::read_to_string(&f) {
+            if let Ok(ts) = src.parse::<TokenStream>() {
+                walk(ts, &mut lits);
+            }
+        }
+    }
+    lits.sort();
+    lits.dedup();
+    let is_caps = |s: &str| s.len() >= 3 && s.chars().next().map(|c| c.is_ascii_uppercase()).unwrap_or(false) && s.chars().all(|c| c.is_ascii_uppercase() || c.is_ascii_digit() || c == '_');
+    let caps: Vec<&String> = lits.iter().filter(|s| is_caps(s)).collect();
+    let prefixes: Vec<&String> = caps.iter().copied().filter(|s| s.ends_with('_')).collect();
+    let mut env: Vec<String> = Vec::new();
+    for c in &caps {
+        if !c.ends_with('_') {
+            env.push((*c).clone());
+            for p in &prefixes {
+                env.push(format!("{}{}", p, c));
+            }
+        }
+    }
+    env.sort();
+    env.dedup();
+    env.truncate(64);
+    let mut argv: Vec<String> = lits.iter().filter(|s| s.starts_with("--") && s.len() > 3 && !s.contains(' ')).cloned().collect();
+    argv.truncate(32);
+    (env, argv)
 }
 
 pub fn load(repo: &Path) -> Corpus {
@@ -147,5 +211,6 @@ pub fn load(repo: &Path) -> Corpus {
             }
         }
     }
-    Corpus { items, files, from_tests_dir, from_unit_tests, from_docs }
+    let (dict_env, dict_argv) = source_dictionary(repo);
+    Corpus { items, files, from_tests_dir, from_unit_tests, from_docs, dict_env, dict_argv }
 }
